@@ -79,7 +79,7 @@ def check_value_string(chk):
     return regex_name
 
 
-NUMBER_SAMPLES = [0, 5, -3, 10 ** 20, 123456789012345678901234567890, 0.0, 5.0, -3.0, 10.0, 100.0, 1200.0, 1.5, -2.25, 0.1, 0.5, 100.5, 1000000.0, 123456789.125, 1e15, 1e16, 1e20, 1.5e20,
+NUMBER_SAMPLES = [0, 5, -3, 10 ** 20, 123456789012345678901234567890, 0.0, -0.0, 5.0, -3.0, 10.0, 100.0, 1200.0, 1.5, -2.25, 0.1, 0.5, 100.5, 1000000.0, 123456789.125, 1e15, 1e16, 1e20, 1.5e20,
                   1.25e+30, 1e21, 1e22, 1e100, 1.7976931348623157e308, 1e-5, 1e-7, 1.5e-7, 2.25e-300, 1.5e-10, 5e-324, 2.5e-10, 1.05, 10.01, 1e+300, 3e+50, 7.0e-20]
 
 
@@ -114,9 +114,12 @@ def check_value_string_sim(chk):
             back = float(got) if isinstance(v, float) else int(got)
         except ValueError:
             back = None
-        if back is None or back != v:
+        import math as _math
+        if back is not None and back == v and isinstance(v, float) and _math.copysign(1.0, back) != _math.copysign(1.0, v):
+            probs.append((v, f'prints {got!r}: the sign of zero is lost (the text converts back to {back!r})'))
+        elif back is None or back != v:
             probs.append((v, f'prints {got!r}, which {"is not a number" if back is None else f"denotes {back!r}"}: the text no longer converts back to the number'))
-        elif float(v).is_integer() and abs(v) < 1e15 and got != str(int(v)):
+        elif float(v).is_integer() and abs(v) < 1e15 and got != str(int(v)) and not (v == 0 and isinstance(v, float) and _math.copysign(1.0, v) < 0):
             probs.append((v, f'prints {got!r}; an integral number prints as its integer digits {str(int(v))!r}'))
     return n, probs
 
